@@ -66,6 +66,10 @@ pub struct State {
     pub local_touch: BTreeMap<usize, BTreeSet<usize>>,
     pub noncandidate_points: u64,
     progress: u64,
+    /// threads that stopped making progress while holding the baton without reaching a
+    /// scheduling point (blocked on / spinning at a primitive the hooks do not wrap)
+    foreign: Vec<bool>,
+    pub foreign_blocks: u64,
 }
 
 pub struct Sched {
@@ -98,6 +102,8 @@ impl Sched {
                 local_touch: BTreeMap::new(),
                 noncandidate_points: 0,
                 progress: 0,
+                foreign: vec![false; n],
+                foreign_blocks: 0,
             }),
             cv: Condvar::new(),
         })
@@ -126,7 +132,7 @@ impl Sched {
             v.push(running);
         }
         for t in 0..s.n {
-            if t != running && matches!(s.status[t], Status::Parked) && Self::satisfiable(s, t) {
+            if t != running && matches!(s.status[t], Status::Parked) && !s.foreign[t] && Self::satisfiable(s, t) {
                 v.push(t);
             }
         }
@@ -138,6 +144,13 @@ impl Sched {
         let enabled = Self::enabled(s, running);
         let cur_enabled = enabled.first() == Some(&running);
         if enabled.is_empty() {
+            if (0..s.n).any(|t| s.foreign[t] && s.status[t] != Status::Finished) {
+                // nobody can run right now, but a thread that is blocked outside the hooks may
+                // still come back (whoever it waits for may already have released it): the
+                // baton is left free for it
+                s.current = usize::MAX;
+                return None;
+            }
             if s.status.iter().any(|x| *x != Status::Finished) {
                 let who: Vec<String> = (0..s.n)
                     .filter(|t| s.status[*t] != Status::Finished)
@@ -192,6 +205,35 @@ impl Sched {
         s.steps += 1;
         s.progress += 1;
         s.want[me] = want;
+        if s.current != me && s.current == usize::MAX && s.deadlock.is_none() {
+            // revived, and the baton is free: take it and decide like a running thread
+            s.foreign[me] = false;
+            s.status[me] = Status::Running;
+            s.current = me;
+        }
+        if s.current != me {
+            // this thread had been given up as blocked on something the hooks do not see and has
+            // now come back to a scheduling point: it parks like any other thread and waits
+            // for the baton (no decision is taken here)
+            s.foreign[me] = false;
+            s.status[me] = Status::Parked;
+            self.cv.notify_all();
+            while s.current != me {
+                if s.deadlock.is_some() {
+                    drop(s);
+                    loop {
+                        std::thread::park();
+                    }
+                }
+                s = self.cv.wait(s).unwrap_or_else(|e| e.into_inner());
+            }
+            s.status[me] = Status::Running;
+            if let Want::Lock(id) = s.want[me] {
+                s.held.insert(id, me);
+            }
+            s.want[me] = Want::Nothing;
+            return;
+        }
         if s.deadlock.is_some() {
             // the run is over; park forever (the main thread reports and exits)
             drop(s);
@@ -208,8 +250,35 @@ impl Sched {
             s.want[me] = Want::Nothing;
             return;
         }
+        if (0..s.n).any(|t| s.foreign[t] && s.status[t] != Status::Finished) {
+            // a thread given up as blocked outside the hooks may just have been released: give
+            // it a moment to reach its next scheduling point, so that it is (reproducibly) part
+            // of this decision rather than of some later one
+            drop(s);
+            std::thread::sleep(std::time::Duration::from_millis(4));
+            s = self.lock_state();
+        }
         match Self::decide(&mut s, me, kind, obj) {
             Some(chosen) => self.switch_and_wait(s, me, chosen),
+            None if s.deadlock.is_none() => {
+                // blocked, and only foreign-blocked threads could change that: wait for the baton
+                s.status[me] = Status::Parked;
+                self.cv.notify_all();
+                while s.current != me {
+                    if s.deadlock.is_some() {
+                        drop(s);
+                        loop {
+                            std::thread::park();
+                        }
+                    }
+                    s = self.cv.wait(s).unwrap_or_else(|e| e.into_inner());
+                }
+                s.status[me] = Status::Running;
+                if let Want::Lock(id) = s.want[me] {
+                    s.held.insert(id, me);
+                }
+                s.want[me] = Want::Nothing;
+            }
             None => {
                 self.cv.notify_all();
                 drop(s);
@@ -236,12 +305,26 @@ impl Sched {
     /// called by a workload thread after its last call
     pub fn thread_end(&self, me: usize) {
         let mut s = self.lock_state();
+        let was_current = s.current == me;
         s.status[me] = Status::Finished;
         s.want[me] = Want::Nothing;
+        s.foreign[me] = false;
         s.progress += 1;
         TID.with(|t| t.set(usize::MAX));
         if s.status.iter().all(|x| *x == Status::Finished) {
             s.current = usize::MAX;
+            self.cv.notify_all();
+            return;
+        }
+        if !was_current {
+            // a thread given up as foreign-blocked ran to its end on its own; if the baton is
+            // free, somebody it was blocking may be able to run now
+            if s.current == usize::MAX {
+                if let Some(chosen) = Self::decide(&mut s, usize::MAX, "thread-end", String::new()) {
+                    s.status[chosen] = Status::Running;
+                    s.current = chosen;
+                }
+            }
             self.cv.notify_all();
             return;
         }
@@ -253,6 +336,36 @@ impl Sched {
             }
             None => {
                 self.cv.notify_all();
+            }
+        }
+    }
+
+    /// Watchdog (main thread): the baton holder has made no progress for a while without reaching
+    /// a scheduling point — it blocks on, or spins at, a primitive the hooks do not wrap. It is
+    /// marked foreign-blocked and the baton goes to another enabled thread (a recorded decision);
+    /// when it comes back to a scheduling point it parks like any other thread. Returns false
+    /// if nobody else can run (then the execution is stuck for good).
+    pub fn give_up_on_current(&self) -> bool {
+        let mut s = self.lock_state();
+        let me = s.current;
+        if me >= s.n || s.status[me] == Status::Finished || s.deadlock.is_some() {
+            return false;
+        }
+        s.foreign[me] = true;
+        s.foreign_blocks += 1;
+        s.status[me] = Status::Parked;
+        match Self::decide(&mut s, usize::MAX, "foreign-block", format!("T{} blocked outside the hooks", me)) {
+            Some(chosen) => {
+                s.status[chosen] = Status::Running;
+                s.current = chosen;
+                s.progress += 1;
+                self.cv.notify_all();
+                true
+            }
+            None => {
+                // (decide() recorded a deadlock: every other thread is finished, waiting or blocked)
+                self.cv.notify_all();
+                false
             }
         }
     }
@@ -352,6 +465,14 @@ impl Sched {
                 let mut s = self.lock_state();
                 s.held.remove(&id);
                 s.progress += 1;
+                if s.current == usize::MAX && s.deadlock.is_none() {
+                    // released by a thread running outside the baton: a waiter may be enabled now
+                    if let Some(chosen) = Self::decide(&mut s, usize::MAX, "unlock-outside-baton", String::new()) {
+                        s.status[chosen] = Status::Running;
+                        s.current = chosen;
+                        self.cv.notify_all();
+                    }
+                }
             }
             Event::OnceBefore { id, set } => {
                 let known_set = {
@@ -398,6 +519,7 @@ impl Sched {
             "noncandidates": s.noncandidate_points,
             "shared_contexts": shared_contexts,
             "registries_identified": s.stage_mutex.len(),
+            "foreign_blocks": s.foreign_blocks,
         })
     }
 }
